@@ -4,8 +4,11 @@ import GaeaVerif.Model.UserMgr
   Model of the password checks of the client handshake (C30):
     mysql/util.go            CalcPassword, CheckHashPassword (after fixes 680bf06 and
                              5d2c538), CalcCachingSha2Password
-    encoding/hex             DecodeString (the bytes decoded before the first error)
-    proxy/server/manager.go  UserManager.CheckPassword / CheckHashPassword / CheckSha2Password
+    encoding/hex             DecodeString (the bytes decoded before the first error; whether
+                             there was an error)
+    proxy/server/manager.go  isStoredHashPassword, UserManager.CheckPassword / CheckHashPassword /
+                             CheckSha2Password (after fix f737e0b: the clear-text loops skip
+                             stored-hash entries)
     proxy/server/session.go  the method selection and decision of handleHandshakeResponse
                              (after fix 1a0c9e0)
   SHA-1 and SHA-256 are parameters `H1 H256 : Bytes → Bytes`; the driver instantiates
@@ -38,6 +41,13 @@ def hexDecodeString : Bytes → Bytes
     | some x, some y => ((x <<< 4) ||| y) :: hexDecodeString rest
     | _, _ => []
   | _ => []
+
+/-- `_, err := hex.DecodeString(s)`: `err == nil` (every pair is two hex digits and
+    no odd character is left over). -/
+def hexDecodeOK : Bytes → Bool
+  | a :: b :: rest => (fromHexChar a).isSome && (fromHexChar b).isSome && hexDecodeOK rest
+  | [_] => false
+  | [] => true
 
 /-- `mysql.CachingSHA2Password` -/
 def cachingSHA2Password : Bytes := "caching_sha2_password".toUTF8.toList
@@ -75,18 +85,25 @@ def calcCachingSha2Password (salt password : Bytes) : R Bytes :=
     let message2 := H256 (message1Hash ++ salt)
     xorInto message1 message2                   -- for i := range message1 { message1[i] ^= message2[i] }
 
+/-- `strings.HasPrefix(password, "*") && len(password) == 41` -/
+def looksHashed (password : Bytes) : Bool := password.head? == some 0x2a && password.length == 41
+
+/-- `isStoredHashPassword` (proxy/server/manager.go): `*`, 41 characters, and
+    `hex.DecodeString(password[1:])` reports no error. -/
+def isStoredHashPassword (password : Bytes) : Bool :=
+  if looksHashed password then hexDecodeOK (password.drop 1) else false
+
 /-- `UserManager.CheckPassword` on the password list `u.users[user]`:
     `some password` = `(true, password)`, `none` = `(false, "")`. -/
 def umCheckPassword (salt auth : Bytes) : List Bytes → R (Option Bytes)
   | [] => .ok none
   | password :: rest =>
-    match calcPassword H1 salt password with
-    | .ok checkAuth => if auth == checkAuth then .ok (some password) else umCheckPassword salt auth rest
-    | .fail => .fail
-    | .panic => .panic
-
-/-- `strings.HasPrefix(password, "*") && len(password) == 41` -/
-def looksHashed (password : Bytes) : Bool := password.head? == some 0x2a && password.length == 41
+    if isStoredHashPassword password then umCheckPassword salt auth rest       -- continue
+    else
+      match calcPassword H1 salt password with
+      | .ok checkAuth => if auth == checkAuth then .ok (some password) else umCheckPassword salt auth rest
+      | .fail => .fail
+      | .panic => .panic
 
 /-- `UserManager.CheckHashPassword` -/
 def umCheckHashPassword (salt auth : Bytes) : List Bytes → Option Bytes
@@ -99,10 +116,12 @@ def umCheckHashPassword (salt auth : Bytes) : List Bytes → Option Bytes
 def umCheckSha2Password (salt auth : Bytes) : List Bytes → R (Option Bytes)
   | [] => .ok none
   | password :: rest =>
-    match calcCachingSha2Password H256 salt password with
-    | .ok checkAuth => if auth == checkAuth then .ok (some password) else umCheckSha2Password salt auth rest
-    | .fail => .fail
-    | .panic => .panic
+    if isStoredHashPassword password then umCheckSha2Password salt auth rest   -- continue
+    else
+      match calcCachingSha2Password H256 salt password with
+      | .ok checkAuth => if auth == checkAuth then .ok (some password) else umCheckSha2Password salt auth rest
+      | .fail => .fail
+      | .panic => .panic
 
 /-- The stored-hash check followed by the clear-text check (both native branches of
     `handleHandshakeResponse`). -/
@@ -175,9 +194,9 @@ def specAccepts (plugin stored salt resp : Bytes) : Bool :=
   else if plugin = cachingSHA2Password then specSha2 H256 stored salt resp
   else specNative H1 stored salt resp
 
-/-- What the code accepts in addition (open finding `hash-literal-accepted-as-password`):
-    the scramble of the 41-character stored hash string itself, used as if it
-    were a clear-text password. -/
+/-- What the code accepted in addition before fix f737e0b (finding
+    `hash-literal-accepted-as-password`, now repaired): the scramble of the
+    41-character stored hash string itself, used as if it were a clear-text password. -/
 def literalAccepts (plugin stored salt resp : Bytes) : Bool :=
   isHashedEntry stored &&
     (if plugin.length = 0 then resp == nativeScramble H1 salt stored || resp == sha2Scramble H256 salt stored
@@ -185,6 +204,47 @@ def literalAccepts (plugin stored salt resp : Bytes) : Bool :=
      else resp == nativeScramble H1 salt stored)
 
 end
+
+/-! ### The clear-text loops before fix f737e0b (every configured string compared as
+    clear text), for the record -/
+
+def legacyUmCheckPassword (H1 : Bytes → Bytes) (salt auth : Bytes) : List Bytes → R (Option Bytes)
+  | [] => .ok none
+  | password :: rest =>
+    match calcPassword H1 salt password with
+    | .ok checkAuth => if auth == checkAuth then .ok (some password) else legacyUmCheckPassword H1 salt auth rest
+    | .fail => .fail
+    | .panic => .panic
+
+def legacyUmCheckSha2Password (H256 : Bytes → Bytes) (salt auth : Bytes) : List Bytes → R (Option Bytes)
+  | [] => .ok none
+  | password :: rest =>
+    match calcCachingSha2Password H256 salt password with
+    | .ok checkAuth => if auth == checkAuth then .ok (some password) else legacyUmCheckSha2Password H256 salt auth rest
+    | .fail => .fail
+    | .panic => .panic
+
+def legacyCheckNative (H1 : Bytes → Bytes) (salt auth : Bytes) (pws : List Bytes) : R (Option Bytes) :=
+  match umCheckHashPassword H1 salt auth pws with
+  | some p => .ok (some p)
+  | none => legacyUmCheckPassword H1 salt auth pws
+
+def legacyCheckByPlugin (H1 H256 : Bytes → Bytes) (plugin salt auth : Bytes) (pws : List Bytes) : R (Option Bytes) :=
+  if plugin.length = 0 then
+    if auth.length = 32 then legacyUmCheckSha2Password H256 salt auth pws
+    else legacyCheckNative H1 salt auth pws
+  else if plugin = cachingSHA2Password then legacyUmCheckSha2Password H256 salt auth pws
+  else legacyCheckNative H1 salt auth pws
+
+def legacyHandleHandshakeResponse (H1 H256 : Bytes → Bytes) (u : UserManager Bytes)
+    (user salt auth plugin : Bytes) : R Decision :=
+  if !checkUser u user then .ok .deny
+  else
+    match legacyCheckByPlugin H1 H256 plugin salt auth ((mget u.users user).getD []) with
+    | .ok (some password) => .ok (.accept password (getNamespaceByUser u user password))
+    | .ok none => .ok .deny
+    | .fail => .fail
+    | .panic => .panic
 
 /-! ### The in-place version of the pinned tree (before 680bf06 / 5d2c538), for the record -/
 
